@@ -11,6 +11,9 @@ COQ_RESERVED = set('''as at cofix else end exists exists2 fix for forall fun if 
  wrap_u8 wrap_u16 wrap_u32 wrap_u64 wrap_usize wrap_i8 wrap_i16 wrap_i32 wrap_i64 wrap_isize f64_bits_of_u64'''.split())
 
 
+GEN_PREFIXES = ('k_', 'ok_', 'okm_', 'i_', 'a_', 'T_', 'wrap_', 'not_', 'scrut_', 'loop_', 'okloop_', 'callres_', 'v_')
+
+
 def is_int(ty):
     return isinstance(ty, str) and ty in INT_TYPES
 
@@ -57,6 +60,14 @@ class Var:
         return Var(self.name, self.ty, self.mut, self.leaves, self.init, self.is_out)
 
 
+def tname(table, path):
+    """Gallina name of one leaf list of a constant table"""
+    s = 'T_' + table
+    for p in path:
+        s += str(p) if isinstance(p, int) else '_' + p
+    return s
+
+
 def gname(var, path):
     s = var
     for p in path:
@@ -66,6 +77,8 @@ def gname(var, path):
             s += '_' + p
     if s in COQ_RESERVED:
         s += '_'          # e.g. a Rust variable `S` would be read as the constructor S in a Gallina pattern
+    if s.startswith(GEN_PREFIXES) or re.fullmatch(r'r\d+_', s):
+        s = 'v_' + s      # e.g. a Rust variable `T` (component T_w0) would collide with the table names T_<NAME>
     return s
 
 
@@ -107,6 +120,7 @@ class Program:
         self.type_cache = {}
         self.used_gnames = set()
         self.abstract_names = set()   # Rust function names modelled as abstract parameters
+        self.fuel = {}                # (rust fn name, loop index) -> literal fuel bound
 
     def find(self, name, kinds, line=None, fname=None, optional=False):
         hits = []
@@ -121,6 +135,20 @@ class Program:
         if len(hits) > 1:
             fail('name `%s` is defined %d times (%s); the translator does not do module resolution' %
                  (name, len(hits), ', '.join('%s:%d' % (s.path, i.line) for s, i in hits)), line, fname)
+        return hits[0]
+
+    def find_trait_fn(self, tyname_, fname_, line, fname):
+        """T::f where f comes from exactly one `impl Trait for T` among the loaded files"""
+        hits = []
+        for sf in self.files:
+            for key in sf.items:
+                parts = key.split('::')
+                if len(parts) == 3 and parts[0] == tyname_ and parts[2] == fname_:
+                    for it in sf.active(key):
+                        if it.kind == 'fn':
+                            hits.append((sf, it))
+        if len(hits) != 1:
+            fail('cannot resolve associated function %s::%s uniquely (%d candidates)' % (tyname_, fname_, len(hits)), line, fname)
         return hits[0]
 
     # ---- types
@@ -287,6 +315,11 @@ class FnTr:
         self.fail_leaf = ('leaf', 'false')
         self.allow_overflowing = '#![allow(overflowing_literals)]' in sf.inner_attrs
         self.ret_ty = None
+        self.loop_ctx = None      # (break continuation, continue continuation) while translating a loop body
+        self.loop_ids = {}
+        self.aux_defs = []        # Fixpoints generated for loops, emitted before the function's definition
+        self.aux_names = set()
+        self.hoist_ids = {}
 
     def fail(self, msg, line):
         fail('%s [in fn %s]' % (msg, self.fn[1]), line, self.fname)
@@ -332,6 +365,37 @@ class FnTr:
             else:
                 self.fail('literal %d does not fit type %s' % (val, ty), line)
         return Val(ty, [zlit(val, v.hexa)], v.checks)
+
+    def const_fold(self, e, ty):
+        """value of a constant integer expression built from literals with + - * (as rustc evaluates it at compile time:
+        overflow would be a compile error, so the mathematical value must fit the type); None if e is not of that shape"""
+        if not is_int(ty):
+            return None
+        def ev(x):
+            if x[0] == 'paren':
+                return ev(x[1])
+            if x[0] == 'lit':
+                if x[2] is not None and x[2] != ty:
+                    return None
+                return x[1]
+            if x[0] == 'un' and x[1] == '-':
+                v = ev(x[2])
+                return None if v is None else -v
+            if x[0] == 'bin' and x[1] in ('+', '-', '*'):
+                a, b = ev(x[2]), ev(x[3])
+                if a is None or b is None:
+                    return None
+                return a + b if x[1] == '+' else a - b if x[1] == '-' else a * b
+            return None
+        if e[0] == 'lit':
+            return None            # plain literals take the ordinary path (keeps hex / decimal form)
+        v = ev(e)
+        if v is None:
+            return None
+        lo, hi = trange(ty)
+        if not (lo <= v <= hi):
+            return None
+        return zlit(v)
 
     def default_lit(self, v, line):
         if v.ty == 'lit':
@@ -450,6 +514,30 @@ class FnTr:
             return self.tr_if_expr(e, env, expect)
         if k == 'match':
             return self.tr_match_expr(e, env, expect)
+        if k == 'panic':
+            # panic!(..) as a value: never evaluated when ok_ holds (check `false`); the value is the type's zero
+            if expect is None:
+                self.fail('%s!() where the translator does not know the expected type' % e[1], e[2])
+            leaves = ['false' if t == 'bool' else '0' for p, t in self.prog.leaves_of(expect)]
+            return Val(expect, leaves, ['false'])
+        if k == 'range_contains':
+            rng, arg, line = e[1], e[2], e[3]
+            x = self.default_lit(self.tr_scalar(arg, env, None), line)
+            if not is_int(x.ty):
+                self.fail('range.contains on a value of type %s' % tyname(x.ty), line)
+            lo = self.tr_scalar(rng[1], env, x.ty)
+            hi = self.tr_scalar(rng[2], env, x.ty)
+            if lo.ty == 'lit':
+                lo = self.coerce_lit(lo, x.ty, line)
+            if hi.ty == 'lit':
+                hi = self.coerce_lit(hi, x.ty, line)
+            if lo.ty != x.ty or hi.ty != x.ty:
+                self.fail('range bounds of types %s / %s for a value of type %s' % (tyname(lo.ty), tyname(hi.ty), tyname(x.ty)), line)
+            cmp_hi = '<=?' if rng[3] else '<?'
+            return Val('bool', ['((%s <=? %s) && (%s %s %s))' % (lo.leaves[0], x.leaves[0], x.leaves[0], cmp_hi, hi.leaves[0])],
+                       lo.checks + hi.checks + x.checks)
+        if k == 'range':
+            self.fail('range expression outside `(a..b).contains(&x)`', e[4])
         if k == 'block':
             if e[1]:
                 self.fail('block expression with statements in expression position', e[3])
@@ -529,14 +617,26 @@ class FnTr:
             self.fail('selection on a borrowed temporary', cur[3])
         if cur[0] != 'path' or len(cur[1]) != 1:
             self.fail('field/index selection on an expression that is neither a local variable nor a constant table', e[3])
-        tname = cur[1][0]
-        tab = self.prog_table(tname, cur[2])
-        first = steps[0]
-        if first[0] != 'index':
-            self.fail('table %s must be indexed first' % tname, first[3])
-        iv = self.tr_scalar(first[2], env, 'usize')
-        if iv.ty != 'usize':
-            self.fail('table index of type %s (usize expected)' % tyname(iv.ty), first[3])
+        tname_ = cur[1][0]
+        tab = self.prog_table(tname_, cur[2])
+        dims = tab['dims']
+        if len(steps) < len(dims) or any(st_[0] != 'index' for st_ in steps[:len(dims)]):
+            self.fail('table %s must be indexed %d time(s) first' % (tname_, len(dims)), steps[0][3])
+        idx_terms, idx_checks = [], []
+        for d, st_ in zip(dims, steps[:len(dims)]):
+            iv1 = self.tr_scalar(st_[2], env, 'usize')
+            if iv1.ty != 'usize':
+                self.fail('table index of type %s (usize expected)' % tyname(iv1.ty), st_[3])
+            idx_terms.append(iv1.leaves[0])
+            idx_checks += iv1.checks + ['((0 <=? %s) && (%s <? %d))' % (iv1.leaves[0], iv1.leaves[0], d)]
+        if len(dims) == 1:
+            iterm = idx_terms[0]
+        else:
+            iterm = idx_terms[0]
+            for d, t in zip(dims[1:], idx_terms[1:]):
+                iterm = '(%s * %d + %s)' % (iterm, d, t)
+        iv = Val('usize', [iterm], idx_checks)
+        steps = steps[len(dims) - 1:]
         ty = tab['elty']
         pre = ()
         for s in steps[1:]:
@@ -549,9 +649,8 @@ class FnTr:
         leaves = []
         for p, t in tab['leaves']:
             if p[:len(pre)] == pre:
-                leaves.append('(nth (Z.to_nat %s) %s 0)' % (iv.leaves[0], gname('T_' + tname, p)))
-        chk = '((0 <=? %s) && (%s <? %d))' % (iv.leaves[0], iv.leaves[0], tab['n'])
-        return Val(ty, leaves, iv.checks + [chk])
+                leaves.append('(nth (Z.to_nat %s) %s 0)' % (iv.leaves[0], tname(tname_, p)))
+        return Val(ty, leaves, iv.checks)
 
     def prog_table(self, name, line):
         if name in self.prog.tables:
@@ -561,33 +660,51 @@ class FnTr:
         if not (isinstance(ty, tuple) and ty[0] == 'array'):
             fail('constant %s is not an array' % name, it.line, sf.path)
         elty, n = ty[1], ty[2]
+        dims = [n]
         init = c[3]
         if init[0] != 'array':
             fail('table %s: initialiser is not an array literal' % name, it.line, sf.path)
         if len(init[1]) != n:
             fail('table %s: %d rows but declared length %d' % (name, len(init[1]), n), it.line, sf.path)
+        rows = init[1]
+        while isinstance(elty, tuple) and elty[0] == 'array':
+            # [[T; m]; n]: stored row-major in one list per leaf; T[i][j] reads element i*m + j
+            m = elty[2]
+            flat = []
+            for r in rows:
+                if r[0] != 'array' or len(r[1]) != m:
+                    fail('table %s: inner row is not an array literal of %d elements' % (name, m), it.line, sf.path)
+                flat += r[1]
+            rows = flat
+            dims.append(m)
+            elty = elty[1]
         leaves = self.prog.leaves_of(elty)
         cols = [[] for _ in leaves]
         sub = FnTr(self.prog, sf, ('fn', 'table ' + name, [], None, None, it.line), None, 'val', None)
-        for row in init[1]:
-            v = sub.tr(row, Env(), elty)
-            v = sub.default_lit(v, it.line)
+        for row in rows:
+            cv = sub.const_fold(row, elty)
+            if cv is not None:
+                v = Val(elty, [cv])
+            else:
+                v = sub.tr(row, Env(), elty)
+                v = sub.default_lit(v, it.line)
             if v.ty != elty or len(v.leaves) != len(leaves):
                 fail('table %s: row of type %s, expected %s' % (name, tyname(v.ty), tyname(elty)), row[-1] if isinstance(row[-1], int) else it.line, sf.path)
             for j, l in enumerate(v.leaves):
                 if not re.fullmatch(r'\(?-?(0x[0-9a-f]+|[0-9]+)\)?', l):
                     fail('table %s: entry `%s` is not a literal' % (name, l), it.line, sf.path)
                 cols[j].append(l)
+        n = len(rows)
         l0, l1 = sf.lines_of(it)
         h = hashlib.sha256(sf.text_of(it).encode()).hexdigest()[:16]
-        self.prog.header.append('table %s: %s lines %d-%d sha256:%s (%d rows)' % (name, sf.path, l0, l1, h, n))
+        self.prog.header.append('table %s: %s lines %d-%d sha256:%s (%s rows)' % (name, sf.path, l0, l1, h, ' x '.join(str(d) for d in dims)))
         text = []
         for (p, t), col in zip(leaves, cols):
-            g = gname('T_' + name, p)
+            g = tname(name, p)
             body = ';\n  '.join('; '.join(col[i:i + 4]) for i in range(0, len(col), 4))
             text.append('Definition %s : list Z :=\n [%s].\n' % (g, body))
         self.prog.out_defs.append('(* table %s from %s lines %d-%d *)\n' % (name, sf.path, l0, l1) + '\n'.join(text))
-        tab = {'elty': elty, 'n': n, 'leaves': leaves}
+        tab = {'elty': elty, 'n': n, 'leaves': leaves, 'dims': dims}
         self.prog.tables[name] = tab
         return tab
 
@@ -667,11 +784,20 @@ class FnTr:
                 self.fail('shift of an integer literal of undetermined type', line)
             if not is_int(a.ty):
                 self.fail('shift of a value of type %s' % tyname(a.ty), line)
+            signed, w = INT_TYPES[a.ty]
             try:
                 n = self.prog.const_int(r, self.fname)
             except RsError:
-                self.fail('shift by a non-constant amount (the subset has constant shift amounts only, checked against the width)', line)
-            signed, w = INT_TYPES[a.ty]
+                # variable amount: Rust masks the amount to the width when overflow checks are off and panics otherwise;
+                # the value is the masked one, and `0 <= amount < width` goes into the ok_ predicate
+                kv = self.default_lit(self.tr_scalar(r, env, None), line)
+                if not is_int(kv.ty):
+                    self.fail('shift amount of type %s' % tyname(kv.ty), line)
+                k = kv.leaves[0]
+                chk = '((0 <=? %s) && (%s <? %d))' % (k, k, w)
+                if op == '>>':
+                    return Val(a.ty, ['(Z.shiftr %s (%s mod %d))' % (a.leaves[0], k, w)], a.checks + kv.checks + [chk])
+                return Val(a.ty, [self.wrap(a.ty, '(Z.shiftl %s (%s mod %d))' % (a.leaves[0], k, w))], a.checks + kv.checks + [chk])
             if not (0 <= n < w):
                 self.fail('shift amount %d is not below the width of %s (panics in debug, masked in release)' % (n, a.ty), line)
             if op == '>>':
@@ -780,6 +906,17 @@ class FnTr:
                 if pv.ty != sv.ty:
                     self.fail('match pattern of type %s against a scrutinee of type %s' % (tyname(pv.ty), tyname(sv.ty)), aline)
                 test = '(%s =? %s)' % (sname, pv.leaves[0])
+            elif pat[0] == 'por':
+                tests = []
+                for q in pat[1]:
+                    qe = q[1] if q[0] == 'plit' else ('path', q[1], aline)
+                    pv = self.tr_scalar(qe, env, sv.ty)
+                    if pv.ty == 'lit':
+                        pv = self.coerce_lit(pv, sv.ty, aline)
+                    if pv.ty != sv.ty:
+                        self.fail('match pattern of type %s against a scrutinee of type %s' % (tyname(pv.ty), tyname(sv.ty)), aline)
+                    tests.append('(%s =? %s)' % (sname, pv.leaves[0]))
+                test = '(' + ' || '.join(tests) + ')'
             else:
                 # identifier pattern: binds the scrutinee
                 name = pat[1]
@@ -806,14 +943,21 @@ class FnTr:
                 result_ty = bv.ty
             elif bv.ty != result_ty:
                 self.fail('match arms of different types %s / %s' % (tyname(result_ty), tyname(bv.ty)), aline)
-            if bv.checks:
-                self.fail('match arm value with table indexing / f64 idiom (not modelled inside match arms)', aline)
             last = idx == len(arms) - 1
             if last and test is not None:
                 self.fail('the last match arm must be irrefutable (`_` or a binding without guard): exhaustiveness is not analysed', aline)
             if not last and test is None:
                 self.fail('unreachable match arms after an irrefutable arm', aline)
             pieces.append((test, binder, bv))
+        # checks of the arm values hold on the arm taken only
+        if any(bv.checks for _, _, bv in pieces):
+            if any(b is not None for _, b, _ in pieces):
+                self.fail('match with a binding pattern whose arm values need panic checks', line)
+            chk = None
+            for test, binder, bv in reversed(pieces):
+                c = ' && '.join(bv.checks) if bv.checks else 'true'
+                chk = c if test is None else '(if %s then %s else %s)' % (test, c, chk)
+            checks.append('(let %s := %s in %s)' % (sname, sv.leaves[0], chk))
         term = None
         for test, binder, bv in reversed(pieces):
             val = bv.leaves[0]
@@ -826,6 +970,74 @@ class FnTr:
             else:
                 term = val if test is None else '(if %s then %s else %s)' % (test, val, term)
         return Val(result_ty, ['(let %s := %s in %s)' % (sname, sv.leaves[0], term)], checks)
+
+    def subst_var(self, node, name, repl):
+        """replace the plain variable `name` by the AST `repl` (used for binding patterns: the arm's name is the scrutinee)"""
+        if isinstance(node, tuple):
+            if node and node[0] == 'path' and len(node) == 3 and isinstance(node[1], list) and node[1] == [name]:
+                return repl
+            return tuple(self.subst_var(x, name, repl) for x in node)
+        if isinstance(node, list):
+            return [self.subst_var(x, name, repl) for x in node]
+        return node
+
+    def desugar_match(self, e):
+        """match with literal / path / or- / `_` / binding patterns -> nested `if` AST (arms may be blocks). A scrutinee that
+        is not a plain variable is evaluated once into a fresh local first (the result is then a block)."""
+        scrut, arms, line = e[1], e[2], e[3]
+        sc = scrut
+        while sc[0] == 'paren':
+            sc = sc[1]
+        pre = None
+        if not (sc[0] == 'path' and len(sc[1]) == 1):
+            tmp = 'matchval_%d' % line
+            pre = ('let', ('pvar', tmp, False, line), None, sc, line)
+            sc = ('path', [tmp], line)
+        def test_of(pat, aline):
+            if pat[0] == 'plit':
+                return ('bin', '==', sc, pat[1], aline)
+            if pat[0] == 'ppath':
+                return ('bin', '==', sc, ('path', pat[1], aline), aline)
+            if pat[0] == 'pname':
+                if self.prog.find(pat[1], ('const', 'static'), optional=True) is None:
+                    return None                      # binding pattern: matches everything, the name is the scrutinee
+                return ('bin', '==', sc, ('path', [pat[1]], aline), aline)
+            if pat[0] == 'por':
+                t = test_of(pat[1][0], aline)
+                for q in pat[1][1:]:
+                    t2 = test_of(q, aline)
+                    if t is None or t2 is None:
+                        self.fail('binding or `_` inside an or-pattern', aline)
+                    t = ('bin', '||', t, t2, aline)
+                return t
+            return None
+        node = None
+        for idx in range(len(arms) - 1, -1, -1):
+            pat, guard, body, aline = arms[idx]
+            blk = body if body[0] == 'block' else ('block', [], body, aline)
+            t = test_of(pat, aline)
+            if pat[0] == 'pname' and t is None:
+                bname = pat[1]
+                if guard is not None:
+                    guard = self.subst_var(guard, bname, sc)
+                used = set()
+                self.idents_in(blk, used)
+                if bname in used:
+                    blk = ('block', [('let', ('pvar', bname, False, aline), None, sc, aline)] + list(blk[1]), blk[2], blk[3])
+            if guard is not None:
+                t = guard if t is None else ('bin', '&&', t, guard, aline)
+            if idx == len(arms) - 1:
+                if t is not None:
+                    self.fail('the last match arm must be irrefutable (`_`): exhaustiveness is not analysed', aline)
+                node = blk
+            else:
+                if t is None:
+                    self.fail('unreachable match arms after an irrefutable arm', aline)
+                els = node if node[0] == 'block' else ('block', [], node, aline)
+                node = ('if', t, blk, els, aline)
+        if pre is not None:
+            return ('block', [pre], node, line)
+        return node
 
     # ---------------- calls
     def default_value(self, ty, line):
@@ -904,9 +1116,11 @@ class FnTr:
             selfty = None
         elif len(segs) == 2:
             t0, _ = self.prog.resolve_type(('name', segs[0], [segs[0]]), self.self_type, line, self.fname)
-            if not (isinstance(t0, tuple) and t0[0] == 'struct'):
-                self.fail('associated function of non-struct type %s' % tyname(t0), line)
-            hit = self.prog.find(t0[1] + '::' + segs[1], ('fn',), line, self.fname)
+            if not (isinstance(t0, tuple) and t0[0] in ('struct', 'enum')):
+                self.fail('associated function of type %s' % tyname(t0), line)
+            hit = self.prog.find(t0[1] + '::' + segs[1], ('fn',), line, self.fname, optional=True)
+            if hit is None:
+                hit = self.prog.find_trait_fn(t0[1], segs[1], line, self.fname)
             selfty = t0
         else:
             self.fail('call path %s' % '::'.join(segs), line)
@@ -926,7 +1140,8 @@ class FnTr:
                 if not (pl[0].mut or pl[0].is_out):
                     self.fail('&mut borrow of immutable variable `%s`' % pl[0].name, line)
                 # a callee may write without reading; the translation passes the current value, so it must exist
-            v = self.tr_scalar(a, env, pty)
+            aval = a[2] if (a[0] == 'un' and a[1] == '&mut') else a
+            v = self.tr_scalar(aval, env, pty)
             v = self.default_lit(v, line)
             if v.ty != pty:
                 self.fail('argument `%s` of %s has type %s, expected %s' % (pn, info.rust, tyname(v.ty), tyname(pty)), line)
@@ -934,13 +1149,19 @@ class FnTr:
         return self.call_info(info, argvals, line)
 
     # ---------------- statements (continuation-passing; k(env, Val or None) -> IR)
-    def contains_return(self, node):
+    def contains_return(self, node, inloop=False):
+        """does the node contain a statement that leaves the normal continuation: return, or break/continue of the
+        enclosing loop (not those of loops nested inside the node)"""
         if isinstance(node, tuple):
             if node and node[0] == 'return':
                 return True
-            return any(self.contains_return(x) for x in node)
+            if node and node[0] in ('break', 'continue') and len(node) == 2 and not inloop:
+                return True
+            if node and node[0] in ('loop', 'while') and isinstance(node[-1], int):
+                return any(self.contains_return(x, True) for x in node)
+            return any(self.contains_return(x, inloop) for x in node)
         if isinstance(node, list):
-            return any(self.contains_return(x) for x in node)
+            return any(self.contains_return(x, inloop) for x in node)
         return False
 
     def always_returns_block(self, b):
@@ -953,7 +1174,7 @@ class FnTr:
         return False
 
     def always_returns_stmt(self, st):
-        if st[0] == 'return':
+        if st[0] in ('return', 'break', 'continue'):
             return True
         if st[0] == 'expr':
             e = st[1]
@@ -1025,10 +1246,55 @@ class FnTr:
             self.check_no_shadow(block, env, block[3])
         return self.tr_stmts(block[1], 0, block[2], env, k)
 
+    def if_value_needs_split(self, node, multi):
+        """an `if` used as the value of a let / assignment cannot be translated as an expression when a branch contains
+        statements, or (multi: the target has several leaves) when a branch value is a call"""
+        if node[0] == 'paren':
+            return self.if_value_needs_split(node[1], multi)
+        if node[0] == 'block':
+            if node[1]:
+                return True
+            return node[2] is not None and self.if_value_needs_split(node[2], multi)
+        if node[0] == 'if':
+            return any(self.if_value_needs_split(b, multi) for b in (node[2], node[3]) if b is not None)
+        if node[0] == 'match':
+            return any(self.if_value_needs_split(a[2], multi) for a in node[2])
+        return multi and node[0] == 'call'
+
+    def push_assign(self, node, lhs, line):
+        """`lhs = <node>` with the assignment moved to the leaves of the if / block / match structure of node"""
+        if node[0] == 'paren':
+            return self.push_assign(node[1], lhs, line)
+        if node[0] == 'block':
+            if node[2] is None:
+                self.fail('branch without a value in an `if` used as a value', node[3])
+            inner = self.push_assign(node[2], lhs, line)
+            if inner[0] == 'block' and not node[1]:
+                return inner
+            if inner[0] == 'block':
+                return ('block', list(node[1]) + list(inner[1]), inner[2], node[3])
+            return ('block', list(node[1]) + [('expr', inner, line)], None, node[3])
+        if node[0] == 'if':
+            if node[3] is None:
+                self.fail('`if` without `else` used as a value', node[4])
+            def as_block(b):
+                r = self.push_assign(b, lhs, line)
+                return r if r[0] == 'block' else ('block', [('expr', r, line)], None, line)
+            return ('if', node[1], as_block(node[2]), as_block(node[3]), node[4])
+        if node[0] == 'match':
+            arms = []
+            for pat, guard, body, aline in node[2]:
+                r = self.push_assign(body, lhs, line)
+                arms.append((pat, guard, r if r[0] == 'block' else ('block', [('expr', r, aline)], None, aline), aline))
+            return ('match', node[1], arms, node[3])
+        return ('block', [('assign', lhs, '=', node, line)], None, line)
+
     def tr_stmts(self, stmts, i, tail, env, k):
         if i == len(stmts):
             if tail is None:
                 return k(env, None)
+            if tail[0] == 'match' and any(a[2][0] == 'block' and a[2][1] for a in tail[2]):
+                tail = self.desugar_match(tail)
             if tail[0] == 'if' and self.is_stmt_if(tail):
                 return self.tr_if_stmt(tail, env, lambda env2: k(env2, None))
             if tail[0] == 'if' and (tail[2][1] or (tail[3] is not None and tail[3][1]) or self.contains_return(tail)):
@@ -1043,6 +1309,19 @@ class FnTr:
         kind = st[0]
         if kind == 'empty':
             return rest(env)
+        if kind == 'let' and st[3] is not None and st[3][0] in ('if', 'match') and st[1][0] == 'pvar' and st[2] is not None:
+            lty, _rk = self.prog.resolve_type(st[2], self.self_type, st[4], self.fname)
+            if self.if_value_needs_split(st[3], len(self.prog.leaves_of(lty)) > 1 if isinstance(lty, tuple) else False):
+                # let x: T = if c {A; a} else {B; b};   ==>   let x: T; if c {A; x = a;} else {B; x = b;}
+                decl = ('let', st[1], st[2], None, st[4])
+                body = self.push_assign(st[3], ('path', [st[1][1]], st[4]), st[4])
+                return self.tr_stmts([decl, ('expr', body, st[4])] + list(stmts[i + 1:]), 0, tail, env, k)
+        if kind == 'assign' and st[2] == '=' and st[3][0] in ('if', 'match'):
+            pl = self.place(st[1], env) if st[1][0] != 'tuple' else None
+            multi = pl is not None and isinstance(pl[2], tuple) and len(self.prog.leaves_of(pl[2])) > 1
+            if self.if_value_needs_split(st[3], multi):
+                body = self.push_assign(st[3], st[1], st[4])
+                return self.tr_stmts([('expr', body, st[4])] + list(stmts[i + 1:]), 0, tail, env, k)
         if kind == 'let':
             return self.tr_let(st, env, rest)
         if kind == 'assign':
@@ -1051,8 +1330,19 @@ class FnTr:
             if i + 1 != len(stmts) or tail is not None:
                 self.fail('unreachable code after `return`', st[2])
             return self.tr_return(st[1], env, st[2])
+        if kind in ('loop', 'while'):
+            return self.tr_loop(st, env, rest)
+        if kind in ('break', 'continue'):
+            if self.loop_ctx is None:
+                self.fail('`%s` outside a loop' % kind, st[1])
+            if i + 1 != len(stmts) or tail is not None:
+                self.fail('unreachable code after `%s`' % kind, st[1])
+            return self.loop_ctx[0 if kind == 'break' else 1](env)
         if kind == 'expr':
             e = st[1]
+            if e[0] == 'match':
+                e = self.desugar_match(e)
+                st = ('expr', e, st[2])
             if e[0] == 'if':
                 if self.always_returns_stmt(st) and (i + 1 != len(stmts) or tail is not None):
                     self.fail('unreachable code after an `if` whose branches all return', st[2])
@@ -1066,6 +1356,151 @@ class FnTr:
                 self.fail('call statement without &mut outputs (no effect in the pure translation)', st[2])
             self.fail('expression statement without effect', st[2])
         self.fail('statement form %s' % kind, None)
+
+    def idents_in(self, node, acc):
+        if isinstance(node, tuple):
+            if node and node[0] == 'path' and len(node) == 3 and isinstance(node[1], list) and len(node[1]) == 1:
+                acc.add(node[1][0])
+            for x in node:
+                self.idents_in(x, acc)
+        elif isinstance(node, list):
+            for x in node:
+                self.idents_in(x, acc)
+
+    def tr_loop(self, st, env, rest):
+        """`while c { B }` / `loop { B }` (with break / continue) -> a Fixpoint on explicit fuel over the tuple of scalar
+        storage leaves the body modifies. Value function: at fuel 0 it returns the current state (meaningless); the ok_
+        twin returns false at fuel 0, so `ok_f .. = true` says the stated fuel suffices (never out of fuel)."""
+        kind = st[0]
+        line = st[-1]
+        cond = st[1] if kind == 'while' else None
+        body = st[2] if kind == 'while' else st[1]
+        if self.loop_ctx is not None:
+            self.fail('nested loops', line)
+        if self.info is None:
+            self.fail('loop in a constant initialiser', line)
+        if line not in self.loop_ids:               # blocks may be translated more than once (dry runs): number loops by position
+            self.loop_ids[line] = len(self.loop_ids) + 1
+        n = self.loop_ids[line]
+        fname = self.info.rust.replace('::', '_')
+        fuel = self.prog.fuel.get((self.info.rust, n))
+        if fuel is None:
+            self.fail('no fuel bound is given for loop #%d of fn %s (rs2v.FUEL / --fuel %s:%d=N)' % (n, self.info.rust, self.info.rust, n), line)
+        self.check_no_shadow(body, env, line)
+        mod = self.modified_leaves([body], env)
+        state = [(vn, i) for (vn, i) in mod if env.vars[vn].init[i]]
+        for (vn, i) in mod:
+            t = env.vars[vn].leaves[i][1]
+            if not (is_int(t) or t == 'bool' or (isinstance(t, tuple) and t[0] == 'enum')):
+                self.fail('loop state component %s of type %s is not a scalar' % (gname(vn, env.vars[vn].leaves[i][0]), tyname(t)), line)
+        if not state:
+            self.fail('loop that modifies no initialised variable', line)
+        used = set()
+        self.idents_in(body, used)
+        if cond is not None:
+            self.idents_in(cond, used)
+        captured = []
+        for vn in env.order:
+            var = env.vars[vn]
+            if vn in used:
+                for i, (p, t) in enumerate(var.leaves):
+                    if var.init[i] and (vn, i) not in state:
+                        captured.append((vn, i))
+        def gn(vn, i):
+            return gname(vn, env.vars[vn].leaves[i][0])
+        def gt(vn, i):
+            return 'bool' if env.vars[vn].leaves[i][1] == 'bool' else 'Z'
+        snames = [gn(vn, i) for vn, i in state]
+        stuple = snames[0] if len(snames) == 1 else '(' + ', '.join(snames) + ')'
+        stype = ' * '.join(gt(vn, i) for vn, i in state)
+        params = ' '.join('(%s : %s)' % (gn(vn, i), gt(vn, i)) for vn, i in captured + state)
+        cargs = ' '.join(gn(vn, i) for vn, i in captured)
+        lname = ('loop_%s_%d' if self.mode == 'val' else 'okloop_%s_%d') % (fname, n)
+        vname = 'loop_%s_%d' % (fname, n)
+        # body environment: leaves assigned in the body but not initialised before are fresh in every iteration
+        envb = env.copy()
+        def rec_leaf(env2):
+            for vn, i in state:
+                if not env2.vars[vn].init[i]:
+                    self.fail('internal: loop state lost', line)
+            return ('leaf', '(%s fuel\'%s %s)' % (lname, (' ' + cargs) if cargs else '', ' '.join(snames)))
+        def brk_leaf(env2):
+            if self.mode == 'ok':
+                return ('leaf', 'true')
+            return ('leaf', stuple)
+        saved_fail = self.fail_leaf
+        self.fail_leaf = ('leaf', 'false')
+        self.loop_ctx = (brk_leaf, rec_leaf)
+        kbody = lambda env2, v: rec_leaf(env2)
+        if kind == 'while':
+            c = self.tr_scalar(cond, envb, 'bool')
+            if c.ty != 'bool':
+                self.fail('loop condition of type %s' % tyname(c.ty), line)
+            inner = self.tr_block(body, envb, kbody)
+            ir = self.guard(c.checks, ('if', c.leaves[0], inner, brk_leaf(envb)))
+        else:
+            ir = self.tr_block(body, envb, kbody)
+        self.loop_ctx = None
+        self.fail_leaf = saved_fail
+        zero = 'false' if self.mode == 'ok' else stuple
+        rty = 'bool' if self.mode == 'ok' else stype
+        text = ('Fixpoint %s (fuel : nat) %s {struct fuel} : %s :=\n  match fuel with\n  | O => %s\n  | S fuel\' =>\n%s\n  end.\n'
+                % (lname, params, rty, zero, pp(ir, 3)))
+        first = lname not in self.aux_names
+        if first:
+            self.aux_names.add(lname)
+            self.aux_defs.append(text)
+        if self.mode == 'val' and first:
+            self.prog.header.append('loop #%d of fn %s (line %d): Fixpoint %s, fuel %d' % (n, self.info.rust, line, lname, fuel))
+        # after the loop
+        for (vn, i) in mod:
+            if (vn, i) not in state:
+                env.vars[vn].init[i] = False
+        call = '(%s %d%%nat%s %s)' % (vname, fuel, (' ' + cargs) if cargs else '', ' '.join(snames))
+        pat = snames[0] if len(snames) == 1 else "'(" + ', '.join(snames) + ')'
+        if self.mode == 'val':
+            return ('let', pat, ('leaf', call), rest(env))
+        self.nchecks += 1
+        okcall = '(%s %d%%nat%s %s)' % (lname, fuel, (' ' + cargs) if cargs else '', ' '.join(snames))
+        return ('if', okcall, ('let', pat, ('leaf', call), rest(env)), self.fail_leaf)
+
+    def find_out_call(self, e):
+        """a call with &mut arguments in an `if` condition of the shapes  f(..)  |  f(..) op e  |  e op f(..)"""
+        while e[0] == 'paren':
+            e = e[1]
+        def has_mut(c):
+            return c[0] == 'call' and any(a[0] == 'un' and a[1] == '&mut' for a in c[2])
+        if has_mut(e):
+            return e
+        if e[0] == 'bin':
+            l, r = e[2], e[3]
+            while l[0] == 'paren':
+                l = l[1]
+            while r[0] == 'paren':
+                r = r[1]
+            if has_mut(l) and not self.contains_call(r):
+                return l
+            if has_mut(r) and not self.contains_call(l):
+                return r
+        return None
+
+    def contains_call(self, node):
+        if isinstance(node, tuple):
+            if node and node[0] == 'call':
+                return True
+            return any(self.contains_call(x) for x in node)
+        if isinstance(node, list):
+            return any(self.contains_call(x) for x in node)
+        return False
+
+    def replace_node(self, e, old, new):
+        if e is old:
+            return new
+        if isinstance(e, tuple):
+            return tuple(self.replace_node(x, old, new) for x in e)
+        if isinstance(e, list):
+            return [self.replace_node(x, old, new) for x in e]
+        return e
 
     def is_stmt_if(self, e):
         """an `if` in tail position that produces no value (unit)"""
@@ -1122,6 +1557,8 @@ class FnTr:
         return self.ret_leaf(env, v, line)
 
     def tr_return(self, e, env, line):
+        if self.loop_ctx is not None:
+            self.fail('`return` inside a loop body', line)
         if e is None:
             return self.finish_value(env, None, line)
         while e[0] == 'paren':
@@ -1174,8 +1611,6 @@ class FnTr:
         leaves = self.prog.leaves_of(ty)
         for p, t in leaves:
             g = gname(name, p)
-            if g.startswith(('k_', 'ok_', 'okm_', 'i_', 'a_', 'T_', 'wrap_', 'not_', 'scrut_')) or re.fullmatch(r'r\d+_', g):
-                self.fail('variable name `%s` collides with a name the generated Gallina uses' % g, line)
             for other in env.vars.values():
                 if other.name != name:
                     for p2, _ in other.leaves:
@@ -1190,8 +1625,10 @@ class FnTr:
         ty = None
         if tast is not None:
             ty, rk = self.prog.resolve_type(tast, self.self_type, line, self.fname)
-            if rk is not None:
-                self.fail('let with a reference type annotation', line)
+            if rk == 'mut':
+                self.fail('let with a &mut type annotation', line)
+            # a shared reference `&T` held in a local is modelled by the value it points to: while the reference is alive
+            # Rust forbids any mutation of the referent, so the value cannot change under it
         if init is None:
             if pat[0] != 'pvar' or ty is None:
                 self.fail('declaration without initialiser needs a plain name and a type', line)
@@ -1276,6 +1713,20 @@ class FnTr:
     # -- if statement
     def tr_if_stmt(self, e, env, rest):
         cond, then, els, line = e[1], e[2], e[3], e[4]
+        hc = self.find_out_call(cond)
+        if hc is not None:
+            # the call writes through &mut arguments: evaluate it first (Rust evaluates the condition before the branches),
+            # bind its value to a fresh immutable variable and its outputs to their variables, then test
+            v = self.tr(hc, env, None)
+            if v.call is None:
+                self.fail('internal: hoisted call without outputs', line)
+            if line not in self.hoist_ids:
+                self.hoist_ids[line] = len(self.hoist_ids) + 1
+            hname = 'callres_%d' % self.hoist_ids[line]
+            var = self.declare(env, hname, v.ty, False, False, line)
+            targets = [(var, i) for i in range(len(var.leaves))]
+            newcond = self.replace_node(cond, hc, ('path', [hname], line))
+            return self.bind_targets(targets, v, env, lambda env2: self.tr_if_stmt(('if', newcond, then, els, line), env2, rest), line)
         c = self.tr_scalar(cond, env, 'bool')
         if c.ty != 'bool':
             self.fail('condition of type %s' % tyname(c.ty), line)
@@ -1482,12 +1933,13 @@ def translate_fn(prog, sf, item, self_type):
         line = f[5]
         ir = tr.tr_block(body, env, lambda env2, v: tr.finish_value(env2, v, line), nested=False)
         head = ' '.join(['(%s : %s)' % ab for ab in info.abstracts] + gparams)
+        aux = ''.join(a + '\n' for a in tr.aux_defs)
         if mode == 'val':
-            texts['val'] = 'Definition %s %s :=\n%s.\n' % (info.gname, head, pp(ir, 1))
+            texts['val'] = aux + 'Definition %s %s :=\n%s.\n' % (info.gname, head, pp(ir, 1))
         else:
             if tr.nchecks > 0:
                 info.has_ok = True
-                texts['ok'] = 'Definition ok_%s %s : bool :=\n%s.\n' % (info.gname[2:], head, pp(ir, 1))
+                texts['ok'] = aux + 'Definition ok_%s %s : bool :=\n%s.\n' % (info.gname[2:], head, pp(ir, 1))
     l0, l1 = sf.lines_of(item)
     h = hashlib.sha256(sf.text_of(item).encode()).hexdigest()[:16]
     prog.header.append('fn %s -> %s%s: %s lines %d-%d sha256:%s' % (item.name, info.gname, ' (+ ok_%s)' % info.gname[2:] if info.has_ok else '', sf.path, l0, l1, h))
